@@ -29,7 +29,7 @@ try:
             finally:
                 sh("git -C /repo checkout HEAD -- . ; git -C /repo reset -q HEAD")
             # the same rules as ./check: failures that depend on lost ghost bookkeeping / lost closure contracts are undecided
-            bad = {u: [f["id"] for f in r.failures if not f.get("lost_ghost") and not f.get("lost_closures")
+            bad = {u: [f["id"] for f in r.failures if not f.get("lost_ghost") and not f.get("lost_closures") and not f.get("lost_anchors")
                        and not [c for c in f.get("bare_closures", []) if c not in BASE["units"].get(u, {}).get("bare_closures", {}).get(f["fn"], [])]]
                    for u, r in res.items() if r.status == "failed"}
             for u, r in res.items():
